@@ -37,6 +37,7 @@ def proto_table():
     t["rep"] = (macro(P + "reqrep0/rep.c", "REP0_SELF"), macro(P + "reqrep0/rep.c", "REP0_PEER"))
     t["xrep"] = (macro(P + "reqrep0/xrep.c", "REP0_SELF"), macro(P + "reqrep0/xrep.c", "REP0_PEER"))
     t["req"] = (macro(P + "reqrep0/req.c", "REQ0_SELF"), macro(P + "reqrep0/req.c", "REQ0_PEER"))
+    t["xreq"] = (macro(P + "reqrep0/xreq.c", "REQ0_SELF"), macro(P + "reqrep0/xreq.c", "REQ0_PEER"))
     t["respondent"] = (macro(P + "survey0/respond.c", "NNI_PROTO_RESPONDENT_V0"), macro(P + "survey0/respond.c", "NNI_PROTO_SURVEYOR_V0"))
     t["xrespondent"] = (macro(P + "survey0/xrespond.c", "NNI_PROTO_RESPONDENT_V0"), macro(P + "survey0/xrespond.c", "NNI_PROTO_SURVEYOR_V0"))
     t["surveyor"] = (macro(P + "survey0/survey.c", "SURVEYOR0_SELF"), macro(P + "survey0/survey.c", "SURVEYOR0_PEER"))
@@ -45,7 +46,8 @@ def proto_table():
 
 
 PT = {}
-HDR_PROTOS = ("rep", "xrep", "respondent", "xrespondent")   # backtrace words in front of the body
+HDR_PROTOS = ("rep", "xrep", "respondent", "xrespondent", "xreq")   # backtrace words in front of the body
+MAX_HDR = 64                                                          # sizeof m_header_buf: 16 words
 MULTI = ["pull", "sub", "bus", "xrep", "rep", "xrespondent", "respondent"]
 
 
@@ -55,6 +57,8 @@ def bt(rng, hops):
 
 def valid_payload(rng, proto, n=None):
     body = rbytes(rng, rng.choice([0, 1, 5, 32]) if n is None else n)
+    if proto == "xreq":
+        return bt(rng, rng.choice([0, 0, 1, 3, 14, 15])) + body      # a raw REQ takes replies of up to 16 words (no TTL: the header buffer is the bound)
     if proto in HDR_PROTOS:
         return bt(rng, rng.choice([0, 0, 1, 3])) + body
     if proto in ("req", "surveyor"):
@@ -161,6 +165,11 @@ def spec_check(c, out):
                 for h, b in rx:
                     if not (h.startswith("P:") and wf_backtrace(unhx(h[2:]))):
                         return "a message with a malformed protocol header was delivered"
+            if c.proto == "xreq":
+                for h, b in rx:
+                    if h != "-" and len(unhx(h)) > MAX_HDR:
+                        return ("a reply whose backtrace does not fit the %d-byte message header was delivered to a raw REQ socket with a header of %d bytes "
+                                "(the header buffer was overrun)" % (MAX_HDR, len(unhx(h))))
             # what is delivered must be admissible frames of the stream, in order, split into header and body the way
             # the protocol prescribes: nothing invented, nothing read beyond the frame
             k = 0
@@ -170,6 +179,8 @@ def spec_check(c, out):
                         return h.startswith("P:") and unhx(h[2:]) + b == fr
                     if c.proto in ("rep", "respondent"):
                         return h == "-" and fr.endswith(b) and wf_backtrace(fr[:len(fr) - len(b)])
+                    if c.proto == "xreq":
+                        return h != "-" and unhx(h) + b == fr and wf_backtrace(unhx(h)) and len(unhx(h)) <= MAX_HDR
                     if c.proto == "pair1":
                         return len(fr) >= 4 and unhx(h) == fr[:4] and b == fr[4:]
                     return h == "-" and b == fr
@@ -344,17 +355,21 @@ def gen_sessions(rng, tier):
     # sanitised process, so whatever the drop path left behind is seen when the pipe is finalised
     for i in range(70 if q else 1400):
         tran, role = rng.choice(TR)
-        proto = rng.choice(["rep", "rep", "xrep", "respondent", "xrespondent", "pair1"])
+        proto = rng.choice(["rep", "rep", "xrep", "respondent", "xrespondent", "pair1", "xreq"])
         me, peer = PT[proto]
         body = rbytes(rng, rng.choice([0, 1, 8]))
         if proto == "pair1":
             dropf = struct.pack(">I", rng.choice([9, 10, 100, 255])) + body
+        elif proto == "xreq":
+            # one word more than the header buffer holds (and more): refused, the connection is closed; what follows is not read
+            dropf = b"".join(struct.pack(">I", rng.getrandbits(31)) for _ in range(rng.choice([16, 16, 17, 30]))) + struct.pack(">I", 0x80000000 | rng.getrandbits(31)) + body
         else:
             dropf = b"".join(struct.pack(">I", rng.getrandbits(31)) for _ in range(rng.choice([9, 10, 10, 12, 15, 16, 17, 30]))) + body
         shape = rng.choice(["D", "D", "GD", "DG", "GDG", "DD", "GDDG"])
         st = sp_hdr(peer) + b"".join(frame(tran, b"", dropf if ch == "D" else valid_payload(rng, proto)) for ch in shape)
         cuts = sorted(set(rng.randrange(1, len(st)) for _ in range(rng.choice([0, 0, 1, 2]))))
-        add("drop-disc", tran, role, proto, 0, st, cuts, rng.choice(["cw", "cw", "r", "w"]), nexp=shape.count("G"))
+        add("drop-disc", tran, role, proto, 0, st, cuts, rng.choice(["cw", "cw", "r", "w"]),
+            nexp=(shape.split("D")[0].count("G") if proto == "xreq" else shape.count("G")))
     # (h) a handshake that stalls: some of the 8 bytes, then silence beyond the negotiation timeout (virtual clock, hook H4);
     # the listener must still serve the next peer
     for tran in ["tcp", "ipc", "sfd", "ws"] * (1 if q else 6):
